@@ -1643,6 +1643,25 @@ func bodyC05(s *Sim) {
 			s.RunTask(CtrlERS, types.NamespacedName{Namespace: def.NS, Name: e.Status.Canary.ReplicaSet})
 		}
 	}
+	if r.IntN(3) == 0 {
+		// the canary is failed, its replica set is synced as a leftover, and then the very same template
+		// is applied again: the replica set matches spec.template once more, still marked Canary-Failed
+		if e := s.Store.GetEDS(def.NS, def.Name); e != nil && e.Status.Canary != nil {
+			s.RunCLI("canary-fail", key)
+		}
+		s.RunTask(CtrlEDS, key)
+		s.RunTask(CtrlEDS, key)
+		s.Advance(s.maxFrequency() + time.Second)
+		for _, rs := range s.Store.ERSs() {
+			s.RunTask(CtrlERS, types.NamespacedName{Namespace: rs.Namespace, Name: rs.Name})
+		}
+		if e := s.Store.GetEDS(def.NS, def.Name); e != nil && e.Status.Canary == nil && letterOfTpl(&e.Spec.Template) == "A" {
+			if fr := s.ersByLetter(def, "B"); fr != nil && ersCondTrue(&fr.Status, edsv1.ConditionTypeCanaryFailed) {
+				s.userSetTemplate(def.NS, def.Name, "B")
+				s.Stats.NonVacuous["C05.failed-template-applied-again"]++
+			}
+		}
+	}
 	// pass the end of the duration with whatever pause/validation/failure state the chaos left
 	for i := 0; i < 3; i++ {
 		ds := s.advanceCandidates()
